@@ -46,7 +46,7 @@ func (m *c12SM) del(k uint8) (uint8, bool) {
 	return v, true
 }
 
-//verif:h prop=C12 p.ops=3/4 cover=set,delete,shrunk,pop,getorcreate,compute runs=2000000 timeout=200/900
+//verif:h prop=C12 p.ops=3/4 cover=set,delete,shrunk,pop,getorcreate,compute runs=2000000 timeout=900/900
 func H_C12_shrinkingmap() {
 	// thresholds chosen so that shrinking happens early
 	var opts []Option
